@@ -385,6 +385,7 @@ func (bf *buffer) ReadWait(n int) ([]byte, error) {
 	bf.ccond.L.Lock()
 	for ppos = bf.pseq.get(); next > ppos; ppos = bf.pseq.get() {
 		if bf.isDone() {
+			bf.ccond.L.Unlock()
 			return nil, io.EOF
 		}
 
